@@ -274,6 +274,16 @@ let exec (s : t) (verbose : bool) (f : string array) (obs : string option) : str
      | Some p -> Printf.sprintf "%s %s %s %s" (string_of_n p.p_fid) (string_of_n p.p_bid)
                    (string_of_n p.p_off) (string_of_n p.p_size))
   | "files" -> listing s
+  | "hintcheck" ->
+    (match s.disk.k_merge with
+     | Some { m_marker = Some _; m_hint = Some h; _ } ->
+       let b = Buffer.create 64 in
+       List.iter (fun (k, p) ->
+         Buffer.add_string b (Printf.sprintf "%s %s %s %s %s;" (obs_bytes k) (string_of_n p.p_fid) (string_of_n p.p_bid)
+                                (string_of_n p.p_off) (string_of_n p.p_size))) h.hf_recs;
+       Printf.sprintf "%d %s" (List.length h.hf_recs) (md5hex (Buffer.contents b))
+     | Some { m_marker = Some _; m_hint = None; _ } -> "nohint"
+     | _ -> "none")
   | op when String.length op >= 2 && String.sub op 0 2 = "it" ->
     Iter_driver.exec (fun () -> get_db s) (fun d -> s.db <- Some d) (fun () -> s.iter) (fun i -> s.iter <- i) f
   | op -> "err unknown-op-" ^ op
